@@ -66,16 +66,24 @@ class Ctx:
 
     # ------------------------------------------------------------------ implementation / model
     def harness(self, lines, variant_bin=None, timeout=3600):
+        """Runs the native harness; a crash (signal / sanitizer abort) is a result: the line that killed the process
+        is answered `DIED rc=<code>` and the remaining lines are run in a fresh process."""
         b = variant_bin or self.bin
-        p = subprocess.run([os.path.join(b, "harness")], input="\n".join(lines) + "\n", stdout=subprocess.PIPE,
-                           stderr=subprocess.PIPE, text=True, timeout=timeout)
-        out = p.stdout.split("\n")
-        if out and out[-1] == "":
-            out.pop()
-        if p.returncode != 0 or len(out) != len(lines):
-            # the harness died: find the line that killed it by bisection (a crash is a result)
-            return out + ["HARNESS-DIED rc=%d" % p.returncode] + ["HARNESS-SKIPPED"] * (len(lines) - len(out) - 1)
-        return out
+        res = []
+        todo = list(lines)
+        while todo:
+            p = subprocess.run([os.path.join(b, "harness")], input="\n".join(todo) + "\n", stdout=subprocess.PIPE,
+                               stderr=subprocess.PIPE, text=True, timeout=timeout)
+            out = p.stdout.split("\n")
+            if out and out[-1] == "":
+                out.pop()
+            if len(out) >= len(todo):
+                res.extend(out[:len(todo)])
+                break
+            res.extend(out)
+            res.append("DIED rc=%d" % p.returncode)
+            todo = todo[len(out) + 1:]
+        return res
 
     def harness_sharded(self, lines, shards=16):
         return sharded(lambda ls: self.harness(ls), lines, shards)
